@@ -88,10 +88,14 @@ WireKeyShapes(net) ==        \* on the wire the key is additionally bounded by t
 \*  other      a genuine item of another type of the same network
 \*  otherblk   a genuine item of the same type that belongs to another key (another block / period / trie node)
 \*  fldbnd/fldfar  the item with its proof position field (slot / block number / path) at a boundary / far out of range
+\*  relayout   the genuine item re-encoded in the NEIGHBOURING layout of its type: an empty variable field appended to the outer
+\*             container (a pre-Shanghai body sent in the Shanghai encoding with no withdrawals) or, when the last field is
+\*             empty, that field dropped: every field the key's header can check still matches, the extra / missing one has
+\*             no counterpart in the header
 \*  offdecr    a later offset of the fixed part (or of the first inner list) below the one before it - decreasing offsets
 \*  pathcut    state network: the genuine item under a key whose trie path is cut to every shorter length (a path that
 \*             ends inside an extension or leaf key of the proof)
-ContentClasses == {"empty", "one", "two", "fill32", "fillbig", "valid", "trunc", "ext", "offshift", "offdecr", "flip", "emptyvar", "zeroitem", "other", "otherblk", "fldbnd", "fldfar", "pathcut"}
+ContentClasses == {"empty", "one", "two", "fill32", "fillbig", "valid", "trunc", "ext", "offshift", "offdecr", "flip", "emptyvar", "zeroitem", "other", "otherblk", "relayout", "fldbnd", "fldfar", "pathcut"}
 LightContent   == {"empty", "valid", "fill32"}
 
 \* ---- the case record ---------------------------------------------------------------------------------
@@ -125,6 +129,9 @@ ReqPing(net) ==
   \cup UNION {{[B EXCEPT !.sv = pt, !.pl = p.pl, !.pn = p.pn] : p \in PayloadShapes(pt)} : pt \in PTypes}
   \cup {[B EXCEPT !.sv = pt, !.pl = "valid", !.off = o] : pt \in PTypes, o \in BadOff}
   \cup {[B EXCEPT !.sv = PtClientInfo, !.pl = "valid", !.st = "seqhigh", !.fu = f] : f \in FollowUps}
+  \* capabilities that name no base extension the node knows (only unknown / non-base types): they stay in the capabilities
+  \* cache, and the node's NEXT OWN ping to this peer chooses its payload type from them (sweep mutant G1/02-C01)
+  \cup {[B EXCEPT !.sv = PtClientInfo, !.pl = "valid", !.st = s] : s \in {"capsnobase", "capsempty"}}
 ReqFindNodes(net) ==
   LET B == [Z EXCEPT !.ch = "req", !.net = net, !.kind = "findnodes", !.code = FINDNODES] IN
   {[B EXCEPT !.n = FixFindNodes - 1, !.cnt = 1, !.sub = "mid"], [B EXCEPT !.n = FixFindNodes + 1, !.cnt = 1, !.sub = "mid"],
